@@ -21,7 +21,7 @@ RULES = {
     'C': stream.rule_C, 'POSW': stream.rule_POSW, 'B1': stream.rule_B1, 'POST': stream.rule_POST, 'RB': stream.rule_RB, 'NOMOVE': stream.rule_NOMOVE,
     'I': dims.rule_I, 'B3': dims.rule_B3, 'N2a': dims.rule_N2a, 'IDX': dims.rule_IDX, 'TY1': dims.rule_TY1,
     'B2': mutate.rule_B2, 'WB': mutate.rule_WB, 'N1': mutate.rule_N1, 'N2': mutate.rule_N2, 'N5': mutate.rule_N5, 'D5': mutate.rule_D5, 'RNG': mutate.rule_RNG, 'IDX1': mutate.rule_IDX1, 'SLN': mutate.rule_SLN,
-    'E5': ingest.rule_E5, 'CHOKE': ingest.rule_CHOKE, 'LV': ingest.rule_LV,
+    'E5': ingest.rule_E5, 'CHOKE': ingest.rule_CHOKE, 'LV': ingest.rule_LV, 'WIN': ingest.rule_WIN,
     'G2': mode.rule_G2, 'G3': mode.rule_G3, 'G5': mode.rule_G5, 'E8': mode.rule_E8,
     'H4': misc.rule_H4, 'ESC': misc.rule_ESC, 'DELEG': misc.rule_DELEG, 'PK': misc.rule_PK, 'INTEX': misc.rule_INTEX, 'LZ': misc.rule_LZ,
     'H5a': luts.rule_H5a, 'H5b': luts.rule_H5b, 'H5c': luts.rule_H5c,
@@ -70,7 +70,7 @@ _p('C18', ['H1', 'H3', 'E10', 'H4', 'F2'],
                "prefix; both sys.byteorder alias branches of __init__.py are read from the syntax tree.",
    floors={'H1': 60, 'H3': 120})
 
-_p('C17', ['H6', 'DELEG', 'L', 'A7', 'E5', 'OPT', 'J1'],
+_p('C17', ['H6', 'DELEG', 'L', 'A7', 'E5', 'OPT', 'J1', 'WIN'],
    decided=["tofile writes exactly tobytes(), for sizes that span the writer's chunk boundary: the chunk size folds to a "
             "positive multiple of 8, so only the final chunk can be zero-padded (the > 100 MiB case no test reaches); "
             "every write is chunk.tobytes()",
@@ -78,7 +78,8 @@ _p('C17', ['H6', 'DELEG', 'L', 'A7', 'E5', 'OPT', 'J1'],
             "the bytes property refuses non-whole-byte lengths (guard dominates the store read)",
             "tobytes honours the logical length of a file-backed store",
             "read-back routes (bytes, bitarray, file, BytesIO with offset/length) copy the selected window, agree on "
-            "bounds checks and use absolute positions"],
+            "bounds checks and use absolute positions; the bounds test of each windowed route equals, as a linear form, the end of "
+            "the window it slices out, and the BytesIO byte pre-slice covers the bit window"],
    declined=["zero padding and losslessness as values for every content/window/size (inside bitarray.tobytes)"],
    explanation="Constant folding of the chunk-size expression that reaches Bits.cut in Bits.tofile; delegation and guard "
                "dominance checks; ingest feature matrix.")
@@ -303,16 +304,19 @@ _p('C12', ['G1', 'G2', 'G3', 'G5', 'E8', 'E5', 'E9', 'N1', 'F2', 'IDX1', 'RNG', 
                "of slot variants.",
    floors={'G1': 13, 'E8': 13})
 
-_p('C15', ['CHOKE', 'E5', 'E4', 'LV', 'H3', 'H2', 'B2', 'D2', 'N2a', 'F2', 'OPT'],
+_p('C15', ['CHOKE', 'E5', 'WIN', 'E4', 'LV', 'H3', 'H2', 'H4', 'B2', 'D2', 'N2a', 'F2', 'OPT'],
    decided=["a length that is zero (integers), negative or not allowed for the type raises: Dtype objects are created only "
             "through get_dtype behind the allowed-length and non-negativity tests; integer/bfloat/float setters reject "
             "missing, zero or off-table lengths; registry allowed_lengths for floats, bfloat, bool, 8/6/4-bit floats, "
             "whole-byte endian integers",
             "a token whose stated length disagrees with its value raises: the comparison exists on all five routes",
             "an offset or length beyond the supplied bytes / bitarray / file / BytesIO raises (bounds cells of the ingest "
-            "matrix)",
+            "matrix; the test bounds exactly the end of the window taken: linear-form equality over offset, length, byte offset)",
             "a rejected value neither creates nor changes anything: no raise after the first effect in mutators, Array "
-            "element/slice assignment and extend build before they write; negative unsigned exp-Golomb values rejected"],
+            "element/slice assignment and extend build before they write; negative unsigned exp-Golomb values rejected",
+            "the range check in force is the one of the dtype asked for: each integer setter calls the encoder with its registry signedness "
+            "and the caller's length, byte-wise forms refuse partial bytes, the little-endian encoder forwards value/length/signed "
+            "unchanged to the big-endian one (whose OverflowError handler raises CreationError)"],
    declined=["the exact range boundaries [0, 2^n) / [-2^(n-1), 2^(n-1)) and that every in-range value succeeds with "
              "exactly n bits (delegated to bitarray.util.int2ba); the `raise e` of int2bitstore is recorded, not judged"],
    explanation="Who-may-call and guard-dominance check of the Dtype choke point, sibling agreement of setters and ingest "
